@@ -32,7 +32,11 @@ _DECK_MODE = ['identity']
 
 
 def _stub_shuffle(x: Any) -> None:
-    mode = _DECK_MODE[0]
+    for mode in _DECK_MODE[0].split('+'):       # 'stride7+rot13': one step after the other
+        _stub_shuffle_1(x, mode)
+
+
+def _stub_shuffle_1(x: Any, mode: str) -> None:
     with NoTracing():
         if mode == 'identity':
             return
